@@ -78,6 +78,7 @@ func (x *Exec) sliceSort(elem Sort) Sort {
 	if !x.ctx.declared[name] {
 		x.ctx.declRaw(name, fmt.Sprintf("(declare-datatypes ((%s 0)) (((mk_%s (elems_%s (Array Int %s)) (len_%s Int) (nn_%s Bool)))))", name, name, k, elem, k, k))
 	}
+	x.sliceElems[Sort(name)] = elem
 	return Sort(name)
 }
 
